@@ -47,6 +47,9 @@ CHECKS = {
  "C15": ("exploration", "complete enumeration of the live URL map x methods x credential shapes x instance ids x bodies x server states; status and a deep before/after snapshot",
          "Every (rule, method) of app.url_map (enumerated at run time) x 15 judged credential shapes x {live, unknown, externalised-only} ids x {no, empty, valid} bodies x 4 server states (no instances, live session, locked session, externalised state on disk): non-public rules answer >= 400 and the deep snapshot (instances, session states, timestamps, scenario settings, state directory bytes) is unchanged.",
          "Flask test client; `Basic <token>` and `Bearer <token> x` recorded but not judged; Flask's automatic OPTIONS reply checked for no state change only.", "§4 C15"),
+ "C16": ("model_checking", "exhaustive enumeration of all merges of per-instance request scripts at request granularity; differential oracle against the solo replay",
+         "All C(2n, n) merges of two request scripts of n = 5 (thorough 7) requests for 5 (10) script pairs, thorough also all merges of three scripts of 3: every (status, body) an instance returns equals what it returns when its script runs alone on a fresh server; one script advances a virtual clock so that a bystander instance times out.",
+         "Instances come from a factory that builds a fresh model per call; interleaving at request granularity only; Flask test client.", "§4 C16"),
  "C17": ("model_checking", "explicit-state BFS over timed event sequences on a real BptkServer under a virtual clock, reference dict id -> (last access, timeout)",
          "All sequences to depth 5 (thorough 6) of create(timeout unit) / begin-session / session-results / keep-alive / metrics / full-metrics / advance(eps, T/2, T-eps, T, T+eps) for pairs of instances covering every timeout unit, with and without a file adapter: available while younger than the timeout, gone (not counted, destroy() exactly once, id refused or restored from the adapter) after the next sweep trigger, timer restarted by every access.",
          "Time reaches the server only through datetime.datetime.now() of its modules (shimmed); an expired instance accessed itself before any sweep is not judged; thorough adds a short real-time cross-check.", "§4 C17"),
